@@ -1,6 +1,6 @@
 (* C11 - Coins already on the orbiter account never alter, fund or block a transfer. *)
 From Coq Require Import String List ZArith Bool.
-From Orbiter Require Import Lib.Res Gen.Constants Model.Ids Model.Env Model.Payload Model.State Model.Pipeline
+From Orbiter Require Import Lib.Res Gen.Constants Model.Ids Model.Env Model.Payload Model.State Model.Pipeline Model.Msgs
      Proofs.Ledger Proofs.PipelineProofs Proofs.TransferProps Proofs.Gates Proofs.GasProofs Props.Examples Props.OpenFindings.
 Import ListNotations.
 Open Scope string_scope.
@@ -70,6 +70,18 @@ Print Assumptions C11_same_outcome.
 Theorem C11_swept : forall cfg d prior,
   sweep_moves cfg d prior = if 0 <? prior then [MSend (cfg_orbiter cfg) (cfg_dust cfg) d prior] else [].
 Proof. reflexivity. Qed.
+
+(* the dust collector is an account the chain's bank blocks (the list is regenerated from the booted application:
+   simapp/app.yaml blocked_module_accounts_override): a user's send towards it is refused and changes nothing, so
+   what is swept there stays there and nobody can occupy the address before the module account exists *)
+Theorem C11_dust_collector_blocked : forall cfg e w from d a,
+  step cfg e w (OSend from dust_collector_address_hex d a) = (w, OutSend false).
+Proof.
+  intros cfg e w from d a. cbn [step].
+  assert (H : existsb (String.eqb dust_collector_address_hex) blocked_addresses = true) by (vm_compute; reflexivity).
+  rewrite H. reflexivity.
+Qed.
+Print Assumptions C11_dust_collector_blocked.
 
 Example C11_ex :
   (* 3 uusdc and 9 ufoo lie on the orbiter account; the same transfer on an emptied account *)
